@@ -79,6 +79,8 @@ def rule_bc(ctx, R):
     v = Vals(s)
     sites = [(bi, t) for bi, t, cb in R.local_callees(s) if cb is q]
     if len(sites) != 1:
+        from ..roles import want, calls_body
+        want(calls_body(R, q))
         return ctx.lost("C12-b", "single call of inverse_gamma_lr in sample (found %d)" % len(sites), fn)
     bi, t = sites[0]
     table_arg = common.arg_of_type(ctx.facts, s, lambda tt, ts: common.ty_is_ref_to_adt(ctx.facts, ts, "TropicalSubgraphTable"))
@@ -117,7 +119,7 @@ def rule_bc(ctx, R):
         rv = st["rv"]
         if "lambda" in rv["fields"]:
             op = rv["ops"][rv["fields"].index("lambda")]
-            rr, tt = unwrap_result_chain(s, v, v.root(op))
+            rr, tt = unwrap_result_chain(s, v, v.deep_root(op))
             ctx.ob("C12-b", "Metadata.lambda is the quantile's Ok payload", tt is t, fn, "metadata-lambda", where=pat.where(st),
                    detail="Metadata.lambda root %r" % (rr,))
     if not md:
